@@ -1,11 +1,42 @@
 """C20  Surface complexation obeys site balance, electrostatic mass action, charge laws.
 
-Shape L: the full Cartesian lattice  surface definition x (sites, area, mass) x pH x background ionic strength x sorbates
-x electrostatic model x way the surface is brought into the system (x temperature x KNOBS tolerance in the thorough
-tier) is enumerated; every point is one RunString on the real library; every calculation of the run in which a SURFACE
-takes part (initial surface calculation, batch reaction, kinetic steps) is judged by an oracle that re-evaluates the
-relations of the property statement from the database text (mc/oracles/surf_ref.py) and the reported numbers
-(USER_PUNCH, full doubles from the selected-output value table).
+Shape L.  Every bound is a full Cartesian lattice  surface definition x (sites, area, mass) x pH x background ionic
+strength x sorbates x electrostatic model x way the surface is brought into the system x temperature; every point is
+one RunString on the real library (fresh instance + database per point); every calculation of the run in which a
+SURFACE takes part (initial surface calculation, batch reaction, kinetic steps) is judged by an oracle that re-evaluates
+the relations of the property statement from the database text (mc/oracles/surf_ref.py) and the reported numbers
+(USER_PUNCH: full doubles from the selected-output value table).
+
+Relations (R1: exactly the statement's):
+ (1) site balance: species of each site type sum to the defined sites (scaled by the related phase / kinetic reactant);
+ (2) mass action of every surface species: log K(T) from the database text, reported log activities of the aqueous
+     reactants, mole fraction of sites as the activity of the surface species, Boltzmann factor(s) of the chosen model at
+     the reported potential(s) (none for -no_edl; exp(-dz F psi/RT) for DDL / CCM / explicit diffuse layer; the
+     three plane potentials with the -cd_music charge distribution for CD-MUSIC);
+ (3) charge density from the species = charge/potential relation at the reported potential, 1e-8 relative:
+     Gouy-Chapman with reported MU, EPS_R, TK (default DDL), C*psi (CCM), C1 (psi0-psi1), C2 (psi1-psi2) and the
+     mixed-electrolyte Gouy-Chapman (Grahame) charge at psi2 (CD-MUSIC);
+ (4) explicit diffuse layer (-diffuse_layer, -donnan, with thickness or debye lengths, -only_counter_ions): net charge
+     of the ions reported in the diffuse layer (EDL_SPECIES) + charge of the surface species = 0.
+
+Tolerances / regime (calibration, R5):
+ * The engine stops iterating when the charge residual is below KNOBS -convergence_tolerance taken ABSOLUTELY (C/m2, or
+   eq with an explicit diffuse layer; default 1e-8, 1e-12 with -high_precision), so with the default tolerance a run
+   that "completes" can legitimately miss a *relative* 1e-8 whenever the charge is small (observed on the unchanged tree:
+   up to 8e-8 relative at 1e-12).  The statement's 1e-8 relative is therefore decided on inputs that ask the solver for
+   KNOBS -convergence_tolerance 1e-13 (the tightest value at which nearly every lattice point still converges; at 1e-14
+   a quarter of the points fail on "Mass of oxygen has not converged").  Nothing is widened: the relations are judged
+   with 1e-8 relative.  A small lattice at the default tolerance is run too and its worst residuals are *reported* in the
+   evidence (`default_tolerance_worst_residuals`), not judged.
+ * The statement gives no tolerance for (4).  It is a balance of many signed terms, so it is judged relative to its
+   gross size: |sum| <= 1e-8 * (sum |z n| over the surface species + sum |z n| over the diffuse-layer ions).
+   (Relative to the *net* charge it cannot be decided: near the point of zero charge the net charge is 1e-10 eq or less
+   while the engine's residual criterion is absolute.)
+ * (1) and (2) carry no tolerance in the statement either; 1e-8 relative is used and holds with a margin of 1e4.
+ * A cancellation allowance of 64 ulp of the summed magnitudes is added where a value is a sum of signed terms.
+ * not judged (R2): runs with rc != 0 / ERROR (zero-charge start with -donnan -only_counter_ions, kinetic integration
+   failures at pH 11, ...); they are counted per model/mode, and a floor on the completed fraction guards vacuity.
+ * mass action of species occupying more than one site (none on this lattice) is skipped (counted in ma_skipped).
 """
 import json
 import math
@@ -16,6 +47,7 @@ from ..oracles import surf_ref as R
 
 PROP = "C20"
 TOL = 1e-8                      # the statement's tolerance (relative)
+CTOL = 1e-13                    # KNOBS -convergence_tolerance of every judged input (see the module docstring)
 CASE_TIMEOUT = 20.0
 ULP = 64 * 2.3e-16              # resolution of a sum of doubles (cancellation allowance, see judge())
 
@@ -81,14 +113,14 @@ SURFS = {
     "c": [("Cdm_u", 1.0)],
 }
 # (sites mol, specific area m2/g, mass g)
-GEOMS = [(2e-4, 600.0, 0.09), (1e-3, 100.0, 1.0), (4e-5, 40.0, 0.5)]
+GEOMS = [(2e-4, 600.0, 0.09), (1e-3, 100.0, 1.0), (5e-4, 40.0, 5.0)]
 PHS = [7.0, 5.0, 9.0, 3.0, 11.0]
 IS = [1e-2, 1e-4, 1.0]
 SORB = {
     "none": ("", []),
     "Zn": (" Zn 0.01\n", ["Zn"]),
     "CaSO4": (" Ca 1\n S(6) 1\n", ["Ca", "S"]),
-    "PO4": (" P 0.1\n", ["P"]),
+    "PO4": (" P 0.02\n", ["P"]),
 }
 # electrostatic model -> (SURFACE options, kind)
 MODELS = {
@@ -155,8 +187,6 @@ def build_input(case):
     mode = case["mode"]
     t = []
     t.append(USER_DB)
-    if case.get("ctol") is not None:
-        t.append("KNOBS\n -convergence_tolerance %r\n" % case["ctol"])
     mm = I * 1000.0
     t.append("SOLUTION 1\n temp %r\n pH %r\n units mmol/kgw\n" % (T, ph))
     if ph > 7.0:
@@ -167,7 +197,7 @@ def build_input(case):
     if mode == "phase":
         t.append("EQUILIBRIUM_PHASES 1\n %s 0 %r\n" % (REL_PHASE, PHASE_MOLES))
     if mode == "kin":
-        t.append("RATES\n Ferri\n -start\n 10 SAVE -2e-8 * TIME\n -end\n")
+        t.append("RATES\n Ferri\n -start\n 10 SAVE 2e-8 * TIME\n -end\n")
         t.append("KINETICS 1\n Ferri\n -formula FeOOH 1\n -m0 %r\n -steps 3600 in 2 steps\n" % PHASE_MOLES)
     t.append("SURFACE 1\n")
     first = True
@@ -213,19 +243,12 @@ def build_input(case):
         L('PUNCH MOL("%s"), LA("%s")' % (spn, spn))
     for r in lay["reactants"]:
         L('PUNCH LA("%s")' % r)
-    # all aqueous species of the elements present (name, molality): needed for the mixed-electrolyte diffuse-layer charge
-    L('na = 0')
-    for e in lay["elements"]:
-        L('t = SYS("%s", cnt, nm$, ty$, mo)' % e)
-        L('FOR i = 1 TO cnt')
-        L('IF ty$(i) = "aq" THEN na = na + 1')
-        L('NEXT i')
-    L('PUNCH na')
-    for e in lay["elements"]:
-        L('t = SYS("%s", cnt, nm$, ty$, mo)' % e)
-        L('FOR i = 1 TO cnt')
-        L('IF ty$(i) = "aq" THEN PUNCH nm$(i), MOL(nm$(i))')
-        L('NEXT i')
+    # every aqueous species of the calculation (name, molality): needed for the mixed-electrolyte diffuse-layer charge
+    L('t = SYS("aq", cnt, nm$, ty$, mo)')
+    L('PUNCH cnt')
+    L('FOR i = 1 TO cnt')
+    L('PUNCH nm$(i), MOL(nm$(i))')
+    L('NEXT i')
     for s in lay["surfaces"]:
         L('t = EDL_SPECIES("%s", cnt, nm$, mo, ar, th)' % s)
         L('PUNCH cnt, ar, th')
@@ -233,6 +256,9 @@ def build_input(case):
         L('PUNCH nm$(i), mo(i)')
         L('NEXT i')
     t.append("".join(p))
+    if case.get("ctol") is not None:
+        # after SELECTED_OUTPUT: "-high_precision true" itself sets the tolerance to 1e-12 when it is read
+        t.append("KNOBS\n -convergence_tolerance %r\n" % case["ctol"])
     t.append("END\n")
     return "".join(t)
 
@@ -317,6 +343,14 @@ def judge(case, lay, o, tag, problems, diags, stats):
                     ch[0] += n * sp.z
                     chabs += n * abs(sp.z)
             # ---- (1) site balance
+            if defined <= 0.0:
+                # the related phase / kinetic reactant is exhausted: a surface without sites.  Only "species sum to the
+                # defined sites (= 0)" is decidable, on the scale of the sites the definition gives per mole of reactant
+                stats["vanished_n"] = stats.get("vanished_n", 0) + 1
+                if not (tot <= TOL * sites0 * frac):
+                    problems.append(("site-balance vanished-surface model=%s mode=%s" % (kind, mode),
+                                     "%s: related reactant has 0 mol, yet species of site type %s sum to %.17g mol" % (tag, st, tot)))
+                continue
             stats["site"] = max(stats.get("site", 0.0), R.rel(tot, defined))
             if not (abs(tot - defined) <= TOL * defined):
                 problems.append(("site-balance model=%s mode=%s" % (kind, mode),
@@ -377,7 +411,7 @@ def judge(case, lay, o, tag, problems, diags, stats):
                                      "%s: %s: log activity from moles %.15g, from log K(%.2f K)=%.6g, reported activities and potential(s) %.15g (ratio-1 = %.3g)" % (
                                          tag, sp.name, lhs, tk, lk, rhs, err)))
                 # diagnostic: engine's own LA() of the species against mole fraction
-                if la.get(sp.name) is not None and abs(la[sp.name] - lhs) > 1e-9:
+                if la.get(sp.name) is not None and abs(la[sp.name] - lhs) > 1e-6:
                     diags.add("LA(%s) differs from log10(mole fraction of sites) by %.3g (%s)" % (sp.name, la[sp.name] - lhs, kind))
         # ---- (3) charge / potential relation
         if A <= 0:
@@ -420,22 +454,23 @@ def judge(case, lay, o, tag, problems, diags, stats):
                 qabs += abs(z * m)
             stot = sum(ch)
             e = abs(q + stot)
-            r = e / max(abs(q), abs(stot), 1e-300)
-            sl = ULP * (qabs + chabs)
+            gross = qabs + chabs
+            r = e / max(gross, 1e-300)
+            sl = ULP * gross
             stats["dl-balance"] = max(stats.get("dl-balance", 0.0), r if e > sl else 0.0)
             stats["dl-balance_n"] = stats.get("dl-balance_n", 0) + 1
             if len(dl["species"]) < 3:
                 raise RuntimeError("EDL_SPECIES returned %d species for an explicit diffuse layer" % len(dl["species"]))
-            if not (e <= TOL * max(abs(q), abs(stot)) + sl):
+            if not (e <= TOL * gross + sl):
                 problems.append(("diffuse-layer-balance model=%s" % case["model"],
-                                 "%s: surface %s: charge of surface species %.17g eq, net charge of the ions in the diffuse layer %.17g eq, sum %.3g (rel %.3g)" % (
-                                     tag, s, stot, q, q + stot, r)))
+                                 "%s: surface %s: charge of surface species %.17g eq, net charge of the ions in the diffuse layer %.17g eq, sum %.3g eq = %.3g of the gross charge %.3g eq" % (
+                                     tag, s, stot, q, q + stot, r, gross)))
         elif kind == "noedl":
             pass
 
 
 def run_case(case):
-    s = phr.session("phreeqc.dat")
+    s = phr.Session("phreeqc.dat")          # fresh instance + database per case: self-contained replay script
     lay = layout(case)
     text = build_input(case)
     problems, diags, stats = [], set(), {}
@@ -443,7 +478,6 @@ def run_case(case):
         r = s.run(text, timeout=CASE_TIMEOUT)
     except drv.DrvTimeout:
         # the calculation does not complete (R2); a driver that was killed needs a new session
-        phr._sessions.clear()
         r = {"rc": None, "err": "TIMEOUT after %g s" % CASE_TIMEOUT, "sel": {}, "heads": {}}
         diags.add("no result within %g s: %s" % (CASE_TIMEOUT, json.dumps(case, sort_keys=True)))
     completed = (r["rc"] == 0 and "ERROR" not in (r["err"] or ""))
@@ -480,9 +514,17 @@ def run_case(case):
         if p[0] not in seen:
             seen.add(p[0])
             uniq.append(p)
+    info = {"model": case["model"], "mode": case["mode"], "nc": not completed, "stats": stats, "diag": bool(case.get("diag"))}
+    if not completed:
+        info["nc_msg"] = nc_message(r["err"] or "")
+        info["nc_sample"] = {"case": case, "error": " ".join((r["err"] or "").split())[:240]}
+    if case.get("diag"):
+        # default-tolerance lattice: reported, not judged (module docstring)
+        info["would_fail"] = sorted(p[0] for p in uniq)
+        uniq = []
     res = {"case": case, "problems": uniq, "ops": max(njudged, 1), "states": states,
-           "outcome": json.dumps([core.sha(repr(out_key)), case["model"], case["mode"], not completed, stats]),
-           "not_completed": not completed, "script": s.d.script(), "diagnostics": sorted(diags)[:3], "stats": stats}
+           "outcome": json.dumps([core.sha(repr(out_key)), info]),
+           "not_completed": not completed, "script": s.d.script() if uniq else "", "diagnostics": sorted(diags)[:3], "stats": stats}
     if sample is not None:
         res["sample"] = sample
     elif not completed:
@@ -490,28 +532,55 @@ def run_case(case):
     return res
 
 
+def nc_message(err):
+    """First informative line of the error string with the numbers masked (a class of not-completed runs)."""
+    import re
+    for l in err.splitlines():
+        l = l.strip()
+        if l and l != "ERROR:":
+            return re.sub(r"[-+]?\d[\d.]*(e[-+]?\d+)?", "#", " ".join(l.split()))[:100]
+    return "?"
+
+
 # ------------------------------------------------------------------------------------------------- enumeration
 def valid(c):
     kind = MODELS[c["model"]][1]
-    if (c["surf"] == "c") != (kind in ("cdm", "cdmdl")):
-        return False
-    if c["mode"] in ("phase", "kin") and c["surf"] in ("u", "c"):
-        return True
-    return True
+    return (c["surf"] == "c") == (kind in ("cdm", "cdmdl"))
 
 
-def cases(tier):
-    out = []
-    if tier == "quick":
-        dims = dict(surf=["w", "sw", "u", "c"], geom=[0, 1], pH=PHS, I=IS, sorb=list(SORB), model=list(MODELS), mode=MODES)
-    else:
-        dims = dict(surf=list(SURFS), geom=[0, 1, 2], pH=PHS, I=IS, sorb=list(SORB), model=list(MODELS), mode=MODES)
+def lattice(**dims):
     keys = list(dims)
+    out = []
     for pt in core.product(*[dims[k] for k in keys]):
         c = dict(zip(keys, pt))
         if valid(c):
             out.append(c)
     return out
+
+
+def bounds(tier):
+    """[(name, cases, dimension sets)]; every bound is a complete Cartesian product (minus the surface/model pairs that do
+    not exist: CD-MUSIC models need the CD-MUSIC site type and vice versa), ordered simplest-first."""
+    surf, sorb, model = list(SURFS), list(SORB), list(MODELS)
+    small = dict(surf=surf, geom=[0], pH=[5.0, 9.0], I=[1e-2, 1.0], sorb=["none", "CaSO4"], model=model, mode=["equil", "kin"])
+    out = []
+    if tier == "quick":
+        d = dict(surf=surf, geom=[0], pH=PHS, I=IS, sorb=sorb, model=model, mode=MODES, T=[25.0], ctol=[CTOL])
+        out.append(("25 C, one geometry", d))
+        out.append(("10 C and 60 C, reduced lattice", dict(small, T=[10.0, 60.0], ctol=[CTOL])))
+        out.append(("default convergence tolerance (reported, not judged)", dict(small, T=[25.0], ctol=[1e-8], diag=[1])))
+    else:
+        d = dict(surf=surf, geom=[0, 1, 2], pH=PHS, I=IS, sorb=sorb, model=model, mode=MODES, T=[25.0], ctol=[CTOL])
+        out.append(("25 C, three geometries", d))
+        d = dict(surf=surf, geom=[0], pH=PHS, I=IS, sorb=sorb, model=model, mode=MODES, T=[10.0, 60.0], ctol=[CTOL])
+        out.append(("10 C and 60 C, one geometry", d))
+        out.append(("default convergence tolerance (reported, not judged)",
+                    dict(surf=surf, geom=[0], pH=PHS, I=IS, sorb=["none", "CaSO4"], model=model, mode=["equil", "kin"], T=[25.0], ctol=[1e-8], diag=[1])))
+    return [(n, lattice(**d), d) for n, d in out]
+
+
+def cases(tier):
+    return [c for _, cs, _ in bounds(tier) for c in cs]
 
 
 class Ev(core.Evidence):
@@ -522,33 +591,95 @@ class Ev(core.Evidence):
         self.worst = {}
         self.counts = {}
         self.by_model = {}
+        self.diag_worst = {}
+        self.diag_would_fail = {}
+        self.nc_classes = {}
+        self.completed = 0
+        self.nc_samples = {}
 
     def outcome(self, key):
-        h, model, mode, nc, stats = json.loads(key)
+        h, info = json.loads(key)
         core.Evidence.outcome(self, h)
-        b = self.by_model.setdefault("%s/%s" % (model, mode), [0, 0])
-        b[1 if nc else 0] += 1
-        for k, v in stats.items():
+        if info["diag"]:
+            for k, v in info["stats"].items():
+                if not (k.endswith("_n") or k == "ma_skipped"):
+                    self.diag_worst[k] = max(self.diag_worst.get(k, 0.0), v)
+            for fp in info.get("would_fail", ()):
+                self.diag_would_fail[fp] = self.diag_would_fail.get(fp, 0) + 1
+            return
+        b = self.by_model.setdefault("%s/%s" % (info["model"], info["mode"]), [0, 0])
+        b[1 if info["nc"] else 0] += 1
+        if info["nc"]:
+            self.nc_classes[info["nc_msg"]] = self.nc_classes.get(info["nc_msg"], 0) + 1
+            if len(self.nc_samples) < 4:
+                self.nc_samples.setdefault(info["nc_msg"], info["nc_sample"])
+        else:
+            self.completed += 1
+        for k, v in info["stats"].items():
             if k.endswith("_n") or k == "ma_skipped":
                 self.counts[k] = self.counts.get(k, 0) + v
             else:
                 self.worst[k] = max(self.worst.get(k, 0.0), v)
 
 
+ASSUMPTIONS = [
+    "constants taken from the implementation (global_structures.h): F = 96493.5 C/mol, R = 8.31470 J/K/mol, eps0 = 8.854e-12 C2/J/m, reference temperature of log K 298.15 K, 1 kcal = 4.184 kJ",
+    "the reported MU, EPS_R, TK, LA() of aqueous species and EDL(psi..) are taken as given (their own correctness is C01/C16)",
+    "activity of a surface species = its fraction of the sites of its type (manual); surface name = part of the site-type name before '_'",
+    "CD-MUSIC without explicit diffuse layer: the charge behind plane 2 is the mixed-electrolyte Gouy-Chapman (Grahame) charge over ALL aqueous species at psi2, a charge imbalance of the solution being carried by a fictitious monovalent counter ion (convention of the implementation, model.cpp eqns A-6/A-7)",
+    "-cd_music dz0 dz1 dz2 f z: the central ion charge z is split f : (1-f) over planes 0 and 1 (manual)",
+    "judged inputs ask for KNOBS -convergence_tolerance 1e-13 (the engine's charge residual criterion is absolute); lattice surfaces have >= 2e-4 mol sites",
+    "EDL_SPECIES moles are the total moles of each ion in the diffuse-layer water",
+    "phreeqc.dat Hfo_w / Hfo_s and the user-defined site types of USER_DB; vdrv driver and the Python oracle are trusted",
+]
+
+
 def run(tier):
     ev = Ev(PROP, tier)
     findings = core.Findings(PROP)
+    ev.assumptions = list(ASSUMPTIONS)
     pool = core.Pool()
-    cs = cases(tier)
-    dl = core.Deadline(150 if tier == "quick" else 1700)
-    done = core.explore_cases(cs, run_case, ev, findings, pool, chunksize=16, deadline=dl)
-    ev.bound("lattice: %d points" % len(cs), done, cases=len(cs))
+    bs = bounds(tier)
+    dl = core.Deadline(110 if tier == "quick" else 1500)
+    stopped = False
+    for name, cs, dims in bs:
+        done = False
+        if not stopped and not dl.passed():
+            done = core.explore_cases(cs, run_case, ev, findings, pool, chunksize=8, deadline=dl)
+        if not done:
+            stopped = True
+        ev.bound("%s: %d points" % (name, len(cs)), done, cases=len(cs),
+                 dims={k: (v if len(v) < 8 else "%d values" % len(v)) for k, v in dims.items()})
     pool.close()
+    judged = sum(a + b for a, b in ev.by_model.values())
+    ev.extra["alphabet"] = {"surfaces": {k: [st for st, _ in v] for k, v in SURFS.items()}, "geometries(sites mol, m2/g, g)": GEOMS, "pH": PHS, "I": IS,
+                            "sorbates": list(SORB), "models": {k: " ".join(v[0].split()) or "(default DDL)" for k, v in MODELS.items()},
+                            "capacitances": CAPS, "modes": MODES}
+    ev.extra["lattice_points"] = sum(len(cs) for _, cs, _ in bs)
+    ev.extra["judged_runs_completed"] = ev.completed
+    ev.extra["judged_runs_not_completed"] = judged - ev.completed
+    ev.extra["not_completed_classes"] = dict(sorted(ev.nc_classes.items(), key=lambda kv: -kv[1])[:12])
+    ev.extra["not_completed_samples"] = list(ev.nc_samples.values())
     ev.extra["worst_relative_residual_per_relation"] = {k: float("%.3g" % v) for k, v in sorted(ev.worst.items())}
     ev.extra["relations_evaluated"] = ev.counts
     ev.extra["completed_notcompleted_by_model_mode"] = ev.by_model
+    ev.extra["default_tolerance_worst_residuals"] = {k: float("%.3g" % v) for k, v in sorted(ev.diag_worst.items())}
+    ev.extra["default_tolerance_points_beyond_1e-8"] = ev.diag_would_fail
     print("  worst residuals: %s" % json.dumps(ev.extra["worst_relative_residual_per_relation"]))
     print("  evaluated: %s" % json.dumps(ev.counts))
+    print("  completed %d, not completed %d of %d judged lattice points" % (ev.completed, judged - ev.completed, judged))
+    # vacuity guards (a broken check is exit 2, never a pass)
+    if not stopped:
+        if judged and ev.completed < 0.85 * judged:
+            raise SystemExit("HARNESS ERROR: only %d of %d runs completed" % (ev.completed, judged))
+        for k, (a, b) in ev.by_model.items():
+            if a == 0:
+                raise SystemExit("HARNESS ERROR: no completed run for %s" % k)
+        for rel_n in ("ma_n", "gouy-chapman_n", "ccm_n", "cdmusic-plane0_n", "cdmusic-plane2-diffuse_n", "dl-balance_n"):
+            if ev.counts.get(rel_n, 0) < 100:
+                raise SystemExit("HARNESS ERROR: relation %s evaluated %d times" % (rel_n, ev.counts.get(rel_n, 0)))
+        if len(ev.outcomes) < 0.5 * ev.completed:
+            raise SystemExit("HARNESS ERROR: %d distinct outcomes for %d completed runs" % (len(ev.outcomes), ev.completed))
     return core.finish(ev, findings)
 
 
